@@ -147,7 +147,8 @@ Eval(e, env, S) ==
                IF x.kind = "D"
                THEN IF c > 1 THEN [v |-> NoneV, s |-> [S1 EXCEPT !.err = "bad"]]
                     ELSE [v |-> BoolV(c = 1), s |-> [S1 EXCEPT !.di = @ + 1, !.used = Append(@, c)]]
-               ELSE [v |-> <<"l", Len(lg), c>>, s |-> [S1 EXCEPT !.di = @ + 1, !.used = Append(@, c)]]
+               \* I2(k, ..) (x.name = "2") returns a list of pairs, for loops with a tuple target
+               ELSE [v |-> <<IF x.name = "2" THEN "l2" ELSE "l", Len(lg), c>>, s |-> [S1 EXCEPT !.di = @ + 1, !.used = Append(@, c)]]
     [] x.kind = "name" ->
         LET c == LookC(S, env, x.name)  v == LookV(S, env, x.name) IN
         IF v = Unbound THEN [v |-> NoneV, s |-> [S EXCEPT !.err = "NameError"]]
@@ -261,6 +262,11 @@ HandlerFor(n, cls) ==
   IF idx = {} THEN 0 ELSE CHOOSE j \in idx : \A j2 \in idx : j <= j2
 
 SetCell(cl, c, v) == [cl EXCEPT ![c] = v]
+\* a for target: one name, or a pair of names bound to the two components of an element of an I2 list
+TargetCells(env, tgt) == {CellOf(envs, env, tgt[j]) : j \in 1..Len(tgt)}
+BindTarget(cl, env, tgt, v) ==
+  IF Len(tgt) = 1 THEN SetCell(cl, CellOf(envs, env, tgt[1]), v)
+  ELSE SetCell(SetCell(cl, CellOf(envs, env, tgt[1]), v), CellOf(envs, env, tgt[2]), <<v[1], v[2], v[3] + 1>>)
 \* a loop that ends because its test is false / its iterator is exhausted runs its else clause (not after break)
 WithElse(c, n, env) == IF ND(n).orelse = <<>> THEN c ELSE Append(c, Frame("blk", ND(n).orelse, n, env))
 
@@ -340,9 +346,9 @@ Finish ==
         /\ cur' = f.node /\ UNCHANGED <<envs, dec, status>> /\ how' = "" /\ rd' = {}
         /\ log' = Fetch(log, f.it[1], f.it[2])
         /\ IF f.items = <<>> THEN ctrl' = WithElse(rest, f.node, f.env) /\ UNCHANGED cells /\ wr' = {}
-           ELSE LET c == CellOf(envs, f.env, ND(f.node).tgt[1]) IN
-                /\ ctrl' = Append(rest, [f EXCEPT !.i = 1, !.items = Tail(@), !.it = <<@[1], @[2] + 1>>])
-                /\ cells' = SetCell(cells, c, Head(f.items)) /\ wr' = {c}
+           ELSE /\ ctrl' = Append(rest, [f EXCEPT !.i = 1, !.items = Tail(@), !.it = <<@[1], @[2] + 1>>])
+                /\ cells' = BindTarget(cells, f.env, ND(f.node).tgt, Head(f.items))
+                /\ wr' = TargetCells(f.env, ND(f.node).tgt)
     [] f.k = "try" ->      \* the body completed normally: the else clause (if any) runs next - outside the reach of the
                            \* handlers, inside that of the finally block, exactly like a handler body without a name
         /\ cur' = 0 /\ Quiet
@@ -444,15 +450,17 @@ Exec(n) ==
       [] d.kind = "for" ->
           WithEval(n, d.e, env, LAMBDA r :
              /\ UNCHANGED <<envs, status>> /\ how' = ""
-             /\ r.v[1] \in {"l", "r"}           \* generator guarantees an iterable (otherwise not judged)
-             /\ LET cnt == IF r.v[1] = "l" THEN r.v[3] ELSE r.v[2]
-                    its == [j \in 1..cnt |-> IF r.v[1] = "l" THEN <<"e", r.v[2], j>> ELSE IntV(j - 1)]
-                    ser == IF r.v[1] = "l" THEN r.v[2] ELSE 0
-                    c   == CellOf(envs, env, d.tgt[1]) IN
+             /\ r.v[1] \in {"l", "r", "l2"}     \* generator guarantees an iterable (otherwise not judged)
+             /\ (r.v[1] = "l2") = (Len(d.tgt) = 2)     \* ... of pairs exactly for a tuple target
+             /\ LET cnt == IF r.v[1] = "r" THEN r.v[2] ELSE r.v[3]
+                    its == [j \in 1..cnt |-> CASE r.v[1] = "l" -> <<"e", r.v[2], j>>
+                                              [] r.v[1] = "l2" -> <<"e", r.v[2], 2 * j - 1>>      \* first component; the second is +1
+                                              [] OTHER -> IntV(j - 1)]
+                    ser == IF r.v[1] = "r" THEN 0 ELSE r.v[2] IN
                 /\ log' = Fetch(r.s.log, ser, 1)       \* the first fetch
                 /\ IF cnt = 0 THEN ctrl' = WithElse(c1, n, env) /\ UNCHANGED cells /\ wr' = {}
                    ELSE /\ ctrl' = Append(c1, [Frame("for", d.body, n, env) EXCEPT !.items = Tail(its), !.it = <<ser, 2>>])
-                        /\ cells' = SetCell(cells, c, its[1]) /\ wr' = {c})
+                        /\ cells' = BindTarget(cells, env, d.tgt, its[1]) /\ wr' = TargetCells(env, d.tgt))
       [] d.kind = "try" ->
           /\ ctrl' = Append(c1, Frame("try", d.body, n, env)) /\ Quiet
       [] d.kind = "with" ->
